@@ -52,7 +52,7 @@ impl Prop for C10Prop {
     fn runs(&self, tier: Tier) -> u64 {
         match tier {
             Tier::Quick => 12_000,
-            Tier::Thorough => 300_000,
+            Tier::Thorough => 120_000,
         }
     }
     fn gen(&self, seed: u64, idx: u64, tier: Tier) -> Case {
@@ -65,6 +65,7 @@ impl Prop for C10Prop {
             shapes: Some(vec![Shape::NestedScc, Shape::NestedScc, Shape::NestedScc, Shape::Cycle, Shape::Gnp, Shape::Union, Shape::Tree, Shape::LayeredDag, Shape::Cliques, Shape::Path]),
             lifecycle_pct: 20,
             keyings: 1,
+            boundary_per_mille: 6,
         }
         .gen("C10", seed, idx);
         // H is the point here: the same graph under >= 8 hash keyings (keying 0 always included)
@@ -72,7 +73,7 @@ impl Prop for C10Prop {
             Tier::Quick => 8,
             Tier::Thorough => 16,
         };
-        case.envs = gen::keyings(seed, k).into_iter().map(|k| Env { keying: k, pool: 1, sched: 0 }).collect();
+        case.envs = gen::envs(seed, k);
         case
     }
     fn run_env(&self, case: &Case, env: &Env, cx: &mut Ctx) {
